@@ -160,6 +160,8 @@ class CallEngine(Engine):
         ['call', 'm.f', [], []], ['dumpcalls'], ['dumpconfig'], ['dumpoper']]}]
 
   def gen_value(self, rng, regs):
+    if rng.random() < 0.04:
+      return ['obj', 'ITER']       # an iterable only its consumer may walk (a generator, a 0-d array): bound and delivered untouched
     return ginm.gen_plain(rng, 2)
 
   def gen_call(self, rng, c):
